@@ -14,7 +14,7 @@ proof obligation (the function can no longer be translated), not as a crash.
 """
 import json, subprocess, os, re, struct
 
-KEYWORDS = {'match', 'end', 'in', 'at', 'fix', 'as', 'with', 'let', 'fun', 'if', 'then', 'else', 'return',
+KEYWORDS = {'fuel', 'fuel_', 'match', 'end', 'in', 'at', 'fix', 'as', 'with', 'let', 'fun', 'if', 'then', 'else', 'return',
             'forall', 'exists', 'Type', 'Prop', 'Set', 'where', 'struct', 'for', 'using', 'cofix', 'IF',
             'mod', 'left', 'right', 'length', 'bind', 'Ok', 'Err', 'UB', 'index_', 'first', 'second', 'pair'}
 
@@ -97,6 +97,9 @@ class Translator:
         self.funcs = {}    # key -> dict(coq=name, monadic=bool, ret=type)
         self.records = records or {}
         self.enums = {}
+        self.globals = {}
+        self.const_lookup = None
+        self.funcs_pending = set()
 
     # ---------------------------------------------------------------- types
     def ctype(self, qt):
@@ -155,7 +158,7 @@ class Translator:
         """does the subtree contain a throw, a double->unsigned cast, an optional deref, or a call
         to a function already known as monadic?"""
         k = node.get('kind')
-        if k == 'CXXThrowExpr':
+        if k == 'CXXThrowExpr' or k == 'WhileStmt':
             return True
         if k == 'ImplicitCastExpr' and node.get('castKind') == 'FloatingToIntegral':
             return True
@@ -207,6 +210,8 @@ class Translator:
             args = inner[1:]
             if nm == 'operator*':
                 return ('deref', args[0])
+            if nm == 'operator!' and self.is_optional(args[0]):
+                return ('optnot', args[0])
             if nm == 'operator=':
                 return ('assign', args[0], args[1])
             rec = self.rec_of(self.strip(args[0]))
@@ -286,6 +291,8 @@ class Translator:
                 return [], '(%d)' % cx.consts[nm]
             if nm == 'none':
                 return [], 'None'
+            if nm not in cx.types:
+                return [], self.global_const(nm, n['type']['qualType'])
             return [], cname(nm)
         if k == 'MemberExpr':
             obj = inner[0]
@@ -329,6 +336,9 @@ class Translator:
             if cal[0] == 'optbool':
                 b, t = self.expr(cal[1], cx)
                 return b, '(opt_is_some %s)' % t
+            if cal[0] == 'optnot':
+                b, t = self.expr(cal[1], cx)
+                return b, '(negb (opt_is_some %s))' % t
             if cal[0] == 'size':
                 b, t = self.expr(cal[1], cx)
                 return b, '(zlen %s)' % t
@@ -375,6 +385,29 @@ class Translator:
                 return self.expr(inner[0], cx)
             raise Unsupported('construct ' + qt)
         raise Unsupported('expression kind %s in %s' % (k, cx.fname))
+
+    def global_const(self, nm, qt):
+        """a namespace-scope constant with a literal initialiser"""
+        if nm in self.globals:
+            return self.globals[nm]
+        if self.const_lookup is None:
+            raise Unsupported('unknown identifier ' + nm)
+        d = self.const_lookup(nm)
+        if d is None:
+            raise Unsupported('unknown identifier ' + nm)
+        init = [c for c in d.get('inner', []) if c.get('kind')]
+        if not init or 'const' not in d['type']['qualType']:
+            raise Unsupported('identifier %s is not a constant with an initialiser' % nm)
+        lit = self.strip(init[0])
+        ty = self.ctype(d['type']['qualType'])
+        if lit.get('kind') == 'IntegerLiteral':
+            t = '(ofZ (%s))' % lit['value'] if ty == 'F64' else '(%s)' % lit['value']
+        elif lit.get('kind') == 'FloatingLiteral' and ty == 'F64':
+            t = double_lit(lit['value'])
+        else:
+            raise Unsupported('initialiser of constant ' + nm)
+        self.globals[nm] = t
+        return t
 
     def is_optional(self, n):
         return 'optional' in self.strip(n).get('type', {}).get('qualType', '')
@@ -430,6 +463,11 @@ class Translator:
             if ty == 'Z' and self.is_unsigned(n['type']['qualType']) and op != '/':
                 f = {'+': 'u64_add', '-': 'u64_sub', '*': 'u64_mul'}[op]
                 return b, '(%s %s %s)' % (f, tl, tr)
+            if ty == 'Z' and self.is_unsigned(n['type']['qualType']) and op == '/':
+                lit = self.strip(r)
+                if lit.get('kind') == 'IntegerLiteral' and int(lit['value']) > 0:
+                    return b, '(Z.div %s %s)' % (tl, tr)
+                raise Unsupported('division by a non-literal')
             raise Unsupported('arithmetic %s on %s' % (op, n['type']['qualType']))
         raise Unsupported('binary operator ' + op)
 
@@ -588,6 +626,23 @@ class Translator:
             for v, st in reversed(cases):
                 out = 'if Z.eqb %s (%s)\nthen %s\nelse %s' % (c, v, self.stmts([st], cx, None), out)
             return self.emit_binds(b, out, cx)
+        if k == 'WhileStmt':
+            cnd, body = s['inner'][0], s['inner'][1]
+            if not cx.monadic:
+                raise Unsupported('loop in pure function')
+            av = sorted(v for v in self.assigned(body, set()) if v in cx.types)
+            cx.kcount += 1
+            ln = 'loop%d' % cx.kcount
+            params = ' '.join('(%s : %s)' % (cname(v), cx.types[v]) for v in av)
+            args = ' '.join(cname(v) for v in av)
+            b, c = self.expr(cnd, cx)
+            again = lambda: '%s fuel_ %s' % (ln, args)
+            body_t = self.stmts([body], cx, again)
+            exit_t = nxt()
+            inner = self.emit_binds(b, 'if %s\nthen %s\nelse %s' % (c, body_t, exit_t), cx)
+            return ('let %s := fix %s (fuel : nat) %s {struct fuel} : res (%s) :=\n'
+                    'match fuel with\n| O => Err "OutOfFuel"\n| S fuel_ =>\n%s\nend in\n%s LOOP_FUEL %s' % (
+                        ln, ln, params, cx.rty, inner, ln, args))
         if k == 'ForStmt':
             inner = s['inner']
             init, cond, inc, body = inner[0], inner[2], inner[3], inner[4]
@@ -640,6 +695,7 @@ class Translator:
         rq = decl['type']['qualType'].split('(')[0].strip()
         rty = self.ctype(rq)
         self.funcs[key] = {'coq': coqname, 'monadic': monadic, 'ret': rty, 'nparams': len(ps)}
+        cx.rty = rty
         term = self.stmts(list(body[0].get('inner', [])), cx, None)
         full = 'res (%s)' % rty if monadic else rty
         return 'Definition %s %s : %s :=\n%s.\n' % (coqname, ' '.join(ps), full, indent(term))
